@@ -55,11 +55,15 @@ InitFile(k) ==
       table |-> [i \in 1..N |-> IF i <= k THEN NewEntry(Blk(ts[i]), off[i]) ELSE Unused(off[k + 1])],
       data |-> Norm(DatOf(1))]
 
+\* ... and one whose table lists its two blocks in the other order than they are stored
+SwappedFile == LET f == InitFile(2) IN [f EXCEPT !.table = [i \in 1..N |-> IF i = 1 THEN f.table[2] ELSE IF i = 2 THEN f.table[1] ELSE f.table[i]]]
+StartFile(k) == IF k = 3 THEN SwappedFile ELSE InitFile(k)
+
 None == [k |-> "none", u |-> 0]
 Init == disk = InitFile(0) /\ base = InitFile(0) /\ prog = <<>> /\ op = [k |-> "init", u |-> 0] /\ done = 0 /\ torn = FALSE
 
-Setup(k) == /\ op.k = "init" /\ k <= N /\ k <= Cardinality(Types)
-            /\ disk' = InitFile(k) /\ base' = InitFile(k) /\ op' = None /\ UNCHANGED <<prog, done, torn>>
+Setup(k) == /\ op.k = "init" /\ (IF k = 3 THEN 2 ELSE k) <= N /\ (IF k = 3 THEN 2 ELSE k) <= Cardinality(Types)
+            /\ disk' = StartFile(k) /\ base' = StartFile(k) /\ op' = None /\ UNCHANGED <<prog, done, torn>>
 
 Idle == op.k = "none" /\ ~torn
 BeginAdd(u) == /\ Idle /\ AddCauses(disk.table, Blk(u)) = {}
@@ -80,7 +84,7 @@ TearDat(j) == /\ prog # <<>> /\ ~torn /\ Head(prog).k = "dat" /\ j \in 1..(Head(
               /\ disk' = Tear(disk, Head(prog), j) /\ torn' = TRUE
               /\ UNCHANGED <<base, prog, op, done>>
 
-Next == \/ \E k \in 0..2 : Setup(k)
+Next == \/ \E k \in 0..3 : Setup(k)
         \/ \E u \in Pay : BeginAdd(u) \/ BeginRep(u)
         \/ \E t \in Types : BeginRem(t)
         \/ Eff
@@ -99,7 +103,8 @@ InvCompose ==
           Run(disk, RepProg(disk.table, disk, Blk(u))) = ReplaceFile(disk, Blk(u))
 
 \* ... and between calls the file is sound and compact (the single-object results carry over)
-InvIdleSound == (op.k = "none" /\ ~torn) => (RangesOK(disk) /\ NoOverlap(disk) /\ UnusedZero(disk) /\ UniqueTypes(disk) /\ Compact(disk))
+InvIdleSound == (op.k = "none" /\ ~torn) => (RangesOK(disk) /\ NoOverlap(disk) /\ UnusedZero(disk) /\ UniqueTypes(disk)
+                                             /\ LengthExact(disk) /\ FreeAfterLive(disk) /\ FreeAtEnd(disk))
 
 InvHeaderSafe == disk.n = N /\ disk.sigok /\ disk.version = 1 /\ Len(disk.table) = N
 
